@@ -19,10 +19,14 @@ def run(ck):
     b = ck.go_build("cagg")
     trace, summ = ck.run_driver(b, args)
     ck.validate(MODULE, trace, sig=sig)
+    if PROP != "C05":
+        # timeouts of 20 and 30 units: scans one or two units (a small fraction of a timeout) before and after a deadline
+        tw, sw = ck.run_driver(b, ["-mode", "c06", "-wide"], name="wide")
+        ck.validate(MODULE, tw, cfg="AggTrace_wide.cfg", sig=sig, label="AggTrace_wide")
     ck.assumptions += ["virtual time: the verif hook shifts every queued deadline by whole units of 1 h (timeouts 2 and 3 units); real elapsed test time is negligible against the unit and strictly positive, so every After/Before comparison of the code equals the integer comparison of the model; a deadline exactly equal to the scan instant cannot be produced",
                        "counters stay below 2^27 (TLC integers are 32-bit): uint64 wrap-around is not covered",
                        "records obey the exporter contract in C05 runs (per node increasing end times, non-decreasing totals, end > start); C07 runs add stale records, which the model covers by its stale-record path"]
     ck.finish(rule=RULE, technique="TLA+ Aggregation spec (TLC exhaustive) + graph replay / random histories on the real AggregationProcess under virtual time + TLC trace validation of full state projections")
 
 def replay(path):
-    vlib.replay(PROP, MODULE, path)
+    vlib.replay(PROP, MODULE, path, cfg="AggTrace_wide.cfg" if "AggTrace_wide" in path else None)
